@@ -404,6 +404,8 @@ def gen_case(seed, i, mode):
     if mode == 'small':
         # small loop bodies: every permutation of their reads
         return {'kind': 'flow', 'prog': small_loop_program(r), 'rng': r.getrandbits(32)}
+    if mode == 'heavy':
+        return heavy_case(r)
     spec = G.gen_project(r)
     if r.random() < 0.2:
         # one module does not parse (somebody is in the middle of typing in it): every request that reaches it raises,
@@ -417,12 +419,66 @@ def gen_case(seed, i, mode):
     reqs = [{'kind': q['kind'], 'source': q['source'], 'position': q['position'], 'file': q['file']} for q in base]
     reqs += G.cycle_requests(r, spec)[:8]
     reqs += G.relative_requests(r, spec)[:6]
+    reqs += literal_requests(r)
     orders = []
     for _ in range(r.choice((2, 3, 4))):
         orders.append([r.randrange(len(reqs)) for _ in range(n)])
     orders.append(list(range(len(reqs))) + list(range(len(reqs))))
     orders.append(list(range(len(reqs)))[::-1])
     return {'kind': 'project', 'spec': spec, 'requests': reqs, 'orders': orders, 'idhash_seed': r.getrandbits(31)}
+
+
+def literal_requests(r):
+    """Completion on names bound to literals that are equal but of different types (on one project their answers must
+    not depend on which was looked at first)."""
+    lits = r.sample(['1', '1.0', 'True', '0', '0.0', 'False', '-0.0', '1j', "''", "b''", "'a'", "b'a'", '()', '[]'], 4)
+    out = []
+    for k, lit in enumerate(lits):
+        src = 'zl%d = %s\nzl%d.\n' % (k, lit, k)
+        out.append({'kind': 'assist', 'source': src, 'position': [2, len('zl%d.' % k)], 'file': 'zqmain.py'})
+    return out
+
+
+def heavy_case(r):
+    """Large modules: a request that walks through several classes with hundreds of instance attributes each does
+    thousands of evaluation steps on a cold project and few on a warm one (work limits, bounded memos and the like only
+    show at this size).  Every request is compared with a fresh project's answer, in several request orders."""
+    nparts = r.choice((3, 4, 5, 6, 8))
+    nfields = r.choice((60, 150, 150, 300, 450))
+    chained = r.random() < 0.4
+    mods = []
+    for i in range(nparts):
+        lines = []
+        if i + 1 < nparts:
+            lines.append('from zqh%d import Part%d' % (i + 1, i + 1))
+        lines += ['', 'class Part%d(object):' % i, '    def __init__(self):']
+        for j in range(nfields):
+            val = str(j) if not (chained and j % 25) else 'self.f%d_%d' % (i, j - 1)
+            lines.append('        self.f%d_%d = %s' % (i, j, val))
+        if i + 1 < nparts:
+            lines.append('        self.nxt = Part%d()' % (i + 1))
+        mods.append({'name': 'zqh%d' % i, 'version': 1, 'iface': {'classes': ['Part%d' % i], 'funcs': [], 'insts': [], 'multis': []},
+                     'items': [['raw', lines]]})
+    mods.reverse()       # imported modules first, like the generated projects
+    head = ['from zqh%d import Part%d' % (i, i) for i in range(nparts)] + ['p%d = Part%d()' % (i, i) for i in range(nparts)]
+    reqs = []
+    for i in range(nparts):
+        text = 'p%d.f%d_0' % (i, i)
+        src = '\n'.join(head + [text, ''])
+        reqs.append({'kind': 'assist', 'source': src, 'position': [len(head) + 1, len('p%d.' % i)], 'file': 'zqmain.py'})
+    for depth in sorted({nparts - 1, max(1, nparts // 2)}):
+        text = 'p0' + '.nxt' * depth + '.f%d_%d' % (depth, nfields - 1)
+        src = '\n'.join(head + [text, ''])
+        col = len('p0' + '.nxt' * depth + '.')
+        reqs.append({'kind': 'assist', 'source': src, 'position': [len(head) + 1, col], 'file': 'zqmain.py'})
+        reqs.append({'kind': 'location', 'source': src, 'position': [len(head) + 1, col + 1], 'file': 'zqmain.py'})
+    n = len(reqs)
+    deep = list(range(nparts, n))
+    orders = [deep + list(range(nparts)) + deep,                 # the deep walk first (cold), everything, deep again
+              list(range(nparts))[::-1] + deep,                  # parts warmed one by one, then the deep walk
+              [r.randrange(n) for _ in range(2 * n)]]
+    return {'kind': 'project', 'spec': {'modules': mods}, 'requests': reqs, 'orders': orders, 'idhash_seed': r.getrandbits(31),
+            'heavy': [nparts, nfields]}
 
 
 def small_loop_program(r):
@@ -461,10 +517,12 @@ def plan(tier, seed, scale=1.0):
     nsmall = int((220 if tier == 'quick' else 5000) * scale)
     nproj = int((400 if tier == 'quick' else 8000) * scale)
     per = 10 if tier == 'quick' else 50
+    nheavy = int((8 if tier == 'quick' else 160) * scale)
     groups = [[{'kind': 'file', 'path': fpath, 'seed': seed, 'tier': tier} for fpath in real_files(tier, seed)]]
     for mode, n in (('small', nsmall), ('flow', nflow), ('project', nproj)):
         groups.append([{'kind': 'runs', 'mode': mode, 'seed': seed, 'first': i, 'count': min(per, n - i)}
                        for i in range(0, n, per)])
+    groups.append([{'kind': 'runs', 'mode': 'heavy', 'seed': seed, 'first': i, 'count': 1} for i in range(nheavy)])
     # interleave the groups so that a wall-clock stop never drops a whole kind of workload
     units = []
     while any(groups):
